@@ -38,18 +38,18 @@ ASSUME_SM = [
 
 MIX = {
     # property: scenario kinds (cycled) for the random direction
-    "C02": ("oneshot", "start", "history"),
+    "C02": ("oneshot", "start", "history", "ping"),
     "C03": ("oneshot", "oneshot", "start", "history"),
     "C04": ("oneshot", "start", "history"),
     "C05": ("start", "start", "oneshot", "history"),
     "C06": ("retry", "oneshot", "retry", "start"),
-    "C07": ("oneshot", "start", "history"),
-    "C08": ("history", "history", "start", "oneshot"),
-    "C09": ("history", "history", "start", "oneshot"),
+    "C07": ("oneshot", "start", "history", "ping"),
+    "C08": ("history", "history", "start", "oneshot", "ping"),
+    "C09": ("history", "ping", "start", "oneshot"),
     "C10": ("oneshot", "oneshot", "start"),
-    "C11": ("start", "start", "history"),
-    "C12": ("start", "start", "history"),
-    "C13": ("start", "history", "oneshot"),
+    "C11": ("start", "start", "history", "ping"),
+    "C12": ("start", "ping", "history"),
+    "C13": ("start", "history", "oneshot", "ping"),
     "C14": ("robust",),
     "C18": ("history", "history", "start"),
 }
@@ -255,6 +255,37 @@ def run_sm(pid, tier, seed, replay, t0, extra_cov=None, extra_viol=0, extra_rc=0
                               "what": "scenario %s: clause(s) %s rejected at log line %d: %s" % (
                                   sid, names, line_no - first + 1, lines[line_no - first].strip()[:300])})
                 break
+    # what the recorded logs contained (vacuity guard: a clause whose trigger never occurs decides nothing)
+    import collections
+    situ = collections.Counter()
+    for first, sid, lines in spans:
+        for x in lines:
+            m = re.match(r'\{"(?:[^"]+)":', x)
+            k = re.search(r'"k":"([a-z.]+)"', x)
+            if not k:
+                continue
+            k = k.group(1)
+            situ["lines:" + k] += 1
+            if k.startswith("http."):
+                a = re.search(r'"auth":"([a-z]+)"', x)
+                c = re.search(r'"cls":"([a-z]+)"', x)
+                situ["%s:%s" % (k, a.group(1) if a else (c.group(1) if c else "?"))] += 1
+                if '"xra":[[' in x:
+                    situ[k + ":with-x-retry-after"] += 1
+                if '"etag_raw"' in x:
+                    situ[k + ":raw-etag"] += 1
+            elif k == "crash":
+                a = re.search(r'"at":"([a-z.]+)', x)
+                situ["crash-at:" + (a.group(1) if a else "?")] += 1
+            elif k == "ctl.reply":
+                a = re.search(r'"ans":"([a-z]+)"', x)
+                situ["reply:" + (a.group(1) if a else "?")] += 1
+            elif k == "ev":
+                a = re.search(r'"e":"state".*"s":"([A-Za-z]+)"', x) or re.search(r'"s":"([A-Za-z]+)".*"e":"state"', x)
+                if a:
+                    situ["state:" + a.group(1)] += 1
+            elif k in ("st.set", "st.rm", "st.commit") and '"ans":"err"' in x:
+                situ["storage-failure:" + k] += 1
     # spec -> implementation: predicted log vs recorded log.  A difference the monitor does not confirm as a violation
     # of this property is model drift (reported, not an alarm): DESIGN.md section 5.
     for first, sid, lines in spans:
@@ -279,7 +310,7 @@ def run_sm(pid, tier, seed, replay, t0, extra_cov=None, extra_viol=0, extra_rc=0
                 "environment scripts through the real state machine, plus seeded random scripts (answers of every embedder "
                 "trait + stimuli at blocking points); every recorded log is monitored by Mon.tla; non-trivial = the recorded "
                 "log matches /%s/; distinct = distinct logs modulo clock stamps" % SM_PROPS[pid][1],
-        "log_lines_monitored": n_lines,
+        "log_lines_monitored": n_lines, "situations_observed": dict(sorted(situ.items())),
         "checker_cmd": "tlc MCOmaha.tla (INVARIANT Inv_%s) ; tlc Mon.tla (PROP=%s) over the recorded ndjson log" % (pid, pid),
         "exhaustive": False,
     }
